@@ -32,7 +32,9 @@ PROP = dict(
               "(4097,4097),(70000,3),(3,70000)} x 3 w x a in {1, -1, 0.6+0.8i, -(1+32/n), i/(1+32/n)} x {dense, impulse@n-1} against the double sum; czt.nearroot: w with angle 2*pi*j/base*(1+d) "
               "(not a root of unity), base in {n, m}, j in {1, 3, base-1}, d in {+-1e-8, +-1e-10, +-1e-12, +-4eps}, (n,m) in {16,64,100,257,1000}^2 "
               "diagonal + (16,31),(64,63),(64,65),(100,17),(48,96),(257,300),(1000,999), a in {1,-1,0.6+0.8i,0.5e^0.7i}, oracle = double sum "
-              "with the actual double w",
+              "with the actual double w; czt.amag: n in {540, 600, 1026, 1100, 2000} x m in {5, n} x w in {1/m, 7/100} x |a| in {0.5, 0.6, 1.5, 2} x "
+              "angle in {0 exactly, pi exactly, 0.7, pi/2 exactly}: result finite and within the usual tolerance (+ an underflow floor of "
+              "4*sqrt(m)*n*DBL_MIN); skipped (counted) only where |a|^-(n-1)*n*n2 exceeds 2^1000, i.e. the sum itself leaves the double range",
         thorough="as quick (no light mode: every listed length gets all entry points and positions) with every n in 1..12288, 46 + 45 listed "
                  "lengths above 12288 (adds n around 46341 where n*n overflows int, primes / 2*prime around 65536 and 46349, 100003, 251*521, "
                  "p^4, 29^3..43^3, round composites 15000..128000), all impulses/tones for n <= 256, dense oracle for n <= 2048, czt.def n <= 48, "
